@@ -19,9 +19,11 @@ def paddedSize (payloadLen : Nat) : Nat :=
 def burstLimit (maxBurstPackets : Nat) : Nat :=
   if maxBurstPackets > 0 then maxBurstPackets * sctpMaxPacket else 4 * sctpMaxPacket
 
-/-- `effective_window = min(min(flight + burst_limit, cwnd), rwnd)` -/
+/-- `effective_window = min(min(flight + burst_limit, cwnd), rwnd)`, or 1 for the zero-window probe -/
 def effectiveWindow (cwnd flight rwnd maxBurstPackets : Nat) : Nat :=
-  min (min (flight + burstLimit maxBurstPackets) cwnd) rwnd
+  -- zero-window probe (RFC 4960 §6.1 A): closed window, nothing in flight ⇒ room for one chunk
+  if rwnd = 0 ∧ flight = 0 then 1
+  else min (min (flight + burstLimit maxBurstPackets) cwnd) rwnd
 
 /-- the `while budget > 0 && batch.len() < 1000` drain of the outbound queue: (batch, rest) -/
 def popBudget : List OChunk → Nat → Nat → List OChunk × List OChunk
